@@ -9,7 +9,8 @@ func init() {
 			"an acceptable answer that is sent behind an unusable message of the same transport phase may or may not be used (don't-care); a truncated or damaged message with the lookup's ID may shorten, never lengthen, the cached lifetime",
 			"every lookup of a cached name (hit, refresh, stale) makes it the most recently used entry",
 			"loopback delivery is in order per receiving socket; the harness sends the next datagram only after the resolver has emptied its receive queue (/proc/net/udp*)",
-			"ft parts: the runtime's virtual clock stands still while socket I/O completes and moves in steps of the 2 s resend cadence, so every resolver timer falls on a step boundary",
+			"ft parts: the runtime's virtual clock stands still while socket I/O completes; the driver lets it move only to instants on the resolver's own timer grid (2 s resends, 20 s per transport) and only when no answer, handshake or unread data is under way (flush markers, TIOCOUTQ, /proc/net/tcp)",
+			"a violation is reported when it shows up again in a re-execution of the same case (scripted upstream behaviour is deterministic; a late loopback delivery under extreme machine load is not); candidates that do not reproduce are counted in events.violation_candidates_not_reproduced",
 		}, commonAssume...),
 		Parts: []partSpec{
 			{Name: "lookup", Flavour: "ft", ShardsQ: 3, ShardsT: 8, TimeoutQ: m10, TimeoutT: m60, Weight: 2},
